@@ -195,7 +195,7 @@ def graph_source(i, g):
         put(n, "%spub struct %s%s {\n    pub id: u32,\n%s}\n" % (derive, pre, n, "".join(lines)))
         types[pre + n] = {"serde": serde, "fields": fields}
     roots = []
-    for j, r in enumerate(g["roots"]):
+    for j, r in enumerate(sorted(g["roots"], key=lambda r: r.get("ord", 0))):
         sp = rustgen.Speller(rotate=False)
         ty = rustgen.spell(prefix_ty(r["ty"], pre), sp)
         fn = "g%d_r%d" % (i, j)
@@ -210,6 +210,9 @@ def graph_source(i, g):
         elif r["site"] == "err":
             put("cmd", "#[tauri::command]\npub fn %s() -> Result<u8, %s> {\n    todo!()\n}\n" % (fn, ty))
         roots.append({"site": r["site"], "ctx": r["ctx"], "to": pre + r["to"]})
+        for other in r.get("also") or []:
+            # a root whose type mentions several project types counts once per mentioned type
+            roots.append({"site": r["site"], "ctx": r["ctx"], "to": pre + other})
     return {k: "\n".join(v) for k, v in parts.items()}, types, roots, pre
 
 
@@ -232,9 +235,9 @@ def emit_fn(i, case, name=None, payload="1", typed=None):
     """one top-level function containing one emit call at the requested placement on the requested receiver"""
     name = name or "ev%d" % i
     recv = {"app": "app", "window": "window", "webview": "webview", "self_app": "ctx.app", "self_window": "ctx.window",
-            "method_result": "ctx.handle()", "handle": "handle", "other_field": "ctx.emitter"}[case["receiver"]]
+            "method_result": "ctx.handle()", "global_method": "APP.get().unwrap()", "handle": "handle", "other_field": "ctx.emitter"}[case["receiver"]]
     params = {"app": "app: tauri::AppHandle", "window": "window: tauri::Window", "webview": "webview: tauri::WebviewWindow",
-              "self_app": "ctx: &Ctx", "self_window": "ctx: &Ctx", "method_result": "ctx: &Ctx", "handle": "handle: tauri::AppHandle",
+              "self_app": "ctx: &Ctx", "self_window": "ctx: &Ctx", "method_result": "ctx: &Ctx", "global_method": "", "handle": "handle: tauri::AppHandle",
               "other_field": "ctx: &Ctx"}[case["receiver"]]
     ev = ('"%s"' % name) if case["lit"] else "EVENT_NAME_%d" % i
     if case["method"] == "emit":
@@ -314,7 +317,7 @@ def emit_fn(i, case, name=None, payload="1", typed=None):
         elif f == "closure":
             inner = ["let f = || {"] + ind(inner) + ["};", "f();"]
         elif f == "nested_fn":
-            inner = ["fn inner(%s, flag: bool, n: u32) {" % params] + ind(inner) + ["}"]
+            inner = ["fn inner(%sflag: bool, n: u32) {" % (params + ", " if params else "")] + ind(inner) + ["}"]
         else:
             raise ValueError(f)
     tail_is_last = p == "tail_expr" and not frames
@@ -324,7 +327,11 @@ def emit_fn(i, case, name=None, payload="1", typed=None):
             body += "    Ok(())\n"
     ret = " -> Result<(), tauri::Error>" if (p == "try_op" or tail_is_last) else ""
     extra = (", " + typed) if typed else ""
-    head = "pub %sfn emitter_%d(%s, flag: bool, n: u32%s)%s {\n" % ("async " if is_async else "", i, params, extra, ret)
+    if params:
+        head = "pub %sfn emitter_%d(%s, flag: bool, n: u32%s)%s {\n" % ("async " if is_async else "", i, params, extra, ret)
+    else:
+        # a function without parameters: the handle comes from a global
+        head = "pub %sfn emitter_%d()%s {\n    let flag = true;\n    let n = 1u32;\n" % ("async " if is_async else "", i, ret)
     const = "" if case["lit"] else "const EVENT_NAME_%d: &str = \"%s\";\n" % (i, name)
     return const + head + body + "}\n"
 
@@ -340,6 +347,7 @@ impl Ctx {
         self.app.clone()
     }
 }
+static APP: std::sync::OnceLock<tauri::AppHandle> = std::sync::OnceLock::new();
 fn helper() {}
 fn next_item() -> Option<u8> {
     None
